@@ -29,6 +29,7 @@ mod streams;
 mod track;
 mod tree;
 mod twin;
+mod wide;
 
 use frame::{Check, Tier};
 use serde_json::Value;
@@ -69,6 +70,9 @@ fn usage() -> ! {
 }
 
 fn main() {
+    if let Some(b) = std::env::var("HX_POISON").ok().and_then(|v| v.parse::<u8>().ok()) {
+        alloc::set_poison(b);
+    }
     run::install_panic_hook();
     let args: Vec<String> = std::env::args().collect();
     if args.len() < 2 {
